@@ -28,7 +28,8 @@ def handle (op real : String) : Verdict := Id.run do
   let pool := get "K:" == "pool"
   let baseMs := (get "B:").toNat?.getD 1
   let maxMs := (get "M:").toNat?.getD 3000
-  let rounds := (splitNE (get "R:") ",").map fun t => t.toNat?.getD 0
+  -- a suffix `e`: the attempts are turned away by an ERROR answer to STARTUP instead of a closed socket; the loop treats both alike
+  let rounds := (splitNE (get "R:") ",").map fun t => ((t.dropEndWhile (· == 'e')).toString.toNat?).getD 0
   let sig := s!"{get "K:"}-b{baseMs}-m{maxMs}-r{rounds.length}-k{rounds.foldl Nat.max 0}"
   let rt := splitNE real " "
   if let some st := rt.find? (·.startsWith "stuck:") then
@@ -51,6 +52,22 @@ def handle (op real : String) : Verdict := Id.run do
       if (gap < lo - 2 || gap > hi + slackMs) && diff.isNone then
         diff := some s!"gap {gap} ms outside the model's {lo}..{hi} ms (+{slackMs}): {op} -> {real}"
       first := false
+  -- the outage the proxy reports while the control connection is down is the time since it was lost (C16: "reports a
+  -- non-zero outage only while no control connection exists"; the readiness probe compares it with its timeout)
+  let outs := (((rt.find? (·.startsWith "out=")).map fun t => (t.drop 4).toString).getD "").splitOn ";"
+  for o in outs do
+    match o.splitOn "/" with
+    | [a, b] =>
+      let rep := a.toInt?.getD 0
+      let el := b.toInt?.getD 0
+      if pool then
+        if rep ≠ 0 then
+          return { kind := "spec", sig, key := "C16:outage-without-control-loss", detail := s!"an outage of {rep} ms was reported while the control connection was up: {op} -> {real}" }
+      else if rep + 150 < el then
+        return { kind := "spec", sig, key := "C16:outage-understated", detail := s!"the control connection had been down for {el} ms, the proxy reported {rep} ms: {op} -> {real}" }
+      else if rep > el + 150 then
+        return { kind := "diff", sig, detail := s!"outage {rep} ms after {el} ms: {op} -> {real}" }
+    | _ => pure ()
   if let some d := diff then return { kind := "diff", sig, detail := d }
   return { kind := "ok", sig }
 
